@@ -4,7 +4,7 @@ T=${1:-quick}; shift
 OUT=/verif/work/incoming_matrix.tsv
 for d in /verif/seeded_incoming/C*/; do
   c=$(basename $d)
-  for n in ${NS:-1 2 3 4 5 6 7 8 9}; do
+  for n in ${NS:-1 2 3 4 5 6 7 8 9 10}; do
     id=$c-$n
     if [ $# -gt 0 ] && ! echo " $* " | grep -q " $id "; then continue; fi
     p=$d/patch$n.diff; [ -f $d/patch$n.rebased.diff ] && p=$d/patch$n.rebased.diff
